@@ -345,7 +345,9 @@ theorem refSpecs_lines : ∀ (refs : List Reference) (i : Nat), refs.all wfRef =
     rw [refSpecs, hnum, specsLines_cons, refSpecs_lines rs (i + 1) hw.2 hrest hidx.2]
     simp only [List.map_cons, GbLayout.refsLines, List.headD_cons, List.tail_cons]
     congr 1
-    unfold specLines GbLayout.refLines
+    unfold specLines GbLayout.refLines GbLayout.refHeadLines
+    -- (w-gbparse, C01 widening) `refLayout` leaves `trailGap` off
+    rw [if_neg (by simp [refLayout])]
     simp only [refSubs, subLines_append, subLines_optSub _ h2, subLines_optSub _ h3, subLines_optSub _ h4,
       subLines_optSub _ h5, subLines_optSub _ h6, hhead]
     rw [blockLines_short _ hplain hnonl hlen]
